@@ -604,7 +604,7 @@ def _raster(seed, dtype, backend, shape=(6, 7), kind='data'):
         ch = opts.get('chunks')
         data = da.from_array(a, chunks=ir._chunks_for(ch, h, w) if ch else (max(1, h // 2), max(1, (w + 1) // 2)))
     ys, xs = ir._axis_coords(opts.get('coords', 'desc2'), h, w)
-    attrs = {'res': (2.0, 2.0)} if opts.get('coords', 'desc2') == 'desc2' else {}
+    attrs = {'res': tuple(opts.get('res', (2.0, 2.0)))} if opts.get('coords', 'desc2') == 'desc2' else {}
     return xr.DataArray(data, dims=['y', 'x'], name='r', coords={'y': ys, 'x': xs}, attrs=attrs)
 
 
@@ -932,6 +932,9 @@ def prepare(d):
         kw['seed'] = kw.pop('seed_arg')
     if 'freq' in kw:
         kw['freq'] = tuple(kw['freq'])
+    for k in ('x_range', 'y_range', 'full_extent'):
+        if k in kw:
+            kw[k] = tuple(kw[k])
     if 'values' in kw and fn == 'zonal.trim':
         kw['values'] = tuple(kw['values'])
     if 'zones_ids' in kw:
@@ -1265,6 +1268,177 @@ def static_part(ctx, repo):
     return F
 
 
+def joint_groups():
+    """key-collision stream: for every function with a Dask path, a base lazy call and variants that differ from it in
+    exactly ONE parameter (extent, zfactor, seed, kernel, bins, k, nodata, cellsize attr, the data, the dtype ...).
+    All members of a group are evaluated in ONE graph and each must equal its result computed alone."""
+    G = []
+
+    def group(fn, base, variants, always=False, **top):
+        def desc(kw, t):
+            t = dict(top, **t)
+            return dict(fn=fn, backend='dask', dtype=t.pop('dtype', 'float64'), seed=t.pop('seed', 11),
+                        shape=t.pop('shape', [12, 14]), kw=kw)
+        members = [desc(dict(base), {})]
+        labels = ['base']
+        for lab, delta in variants:
+            t = {k[1:]: v for k, v in delta.items() if k.startswith('@')}          # '@seed', '@dtype': the DATA / dtype
+            kw = dict(base, **{k: v for k, v in delta.items() if not k.startswith('@')})
+            members.append(desc(kw, t))
+            labels.append(lab)
+        G.append(dict(fn=fn, members=members, labels=labels, always=always))
+    FE = [0, 0, 500, 500]
+    tb = dict(seed_arg=7, template='zeros', x_range=[0, 250], y_range=[0, 250], full_extent=FE, zfactor=4000)
+    group('terrain.generate_terrain', tb, [
+        ('x_range (tile to the east)', {'x_range': [250, 500]}), ('y_range (tile to the north)', {'y_range': [250, 500]}),
+        ('full_extent', {'full_extent': [0, 0, 1000, 1000]}), ('zfactor', {'zfactor': 100}), ('seed', {'seed_arg': 8}),
+        ('dtype of the template', {'@dtype': 'float32'})], always=True)
+    group('perlin.perlin', dict(seed_arg=7, template='zeros'), [('seed', {'seed_arg': 8}), ('freq', {'freq': [2, 3]}),
+                                                                 ('dtype of the template', {'@dtype': 'float32'})], always=True)
+    data = [('the data (same shape and chunks)', {'@seed': 12}), ('dtype (same values)', {'@dtype': 'float32'})]
+    for fn in ('slope.slope', 'curvature.curvature'):
+        group(fn, {}, data + [('cell size (res attribute)', {'ropts': [{'res': [4.0, 4.0]}]})])
+    group('aspect.aspect', {}, data)
+    group('hillshade.hillshade', {}, data + [('azimuth', {'azimuth': 100}), ('angle_altitude', {'angle_altitude': 60})])
+    group('focal.mean', {'passes': 1}, data + [('passes', {'passes': 2}), ('excludes', {'excludes': [0.0]})])
+    group('focal.apply', {'kernel': 'cross3'}, data + [('kernel', {'kernel': 'box5x3'}), ('func', {'func': 'max'})])
+    group('focal.focal_stats', {'kernel': 'cross3', 'stats_funcs': ['mean', 'max']}, data + [('kernel', {'kernel': 'box5x3'})])
+    group('focal.hotspots', {'kernel': 'cross3'}, data + [('kernel', {'kernel': 'box5x3'})])
+    group('convolution.convolution_2d', {'kernel': 'cross3'}, data + [('kernel', {'kernel': 'box5x3'})])
+    group('classify.reclassify', {'bins': [1, 3, 5], 'new_values': [10, 20, 30]},
+          data + [('bins', {'bins': [1, 2, 5]}), ('new_values', {'new_values': [10, 20, 31]})])
+    group('classify.binary', {'values': [1.0, 3.0]}, data + [('values', {'values': [1.0, 2.0]})])
+    group('classify.quantile', {'k': 3}, data + [('k', {'k': 4})])
+    group('classify.equal_interval', {'k': 3}, data + [('k', {'k': 4})])
+    for fn in ('proximity.proximity', 'proximity.allocation', 'proximity.direction'):
+        group(fn, {'target_values': [1], 'max_distance': 4.0, 'distance_metric': 'EUCLIDEAN'},
+              [('the data (same shape and chunks)', {'@seed': 12}), ('target_values', {'target_values': [2]}),
+               ('max_distance', {'max_distance': 6.0}), ('distance_metric', {'distance_metric': 'MANHATTAN'})], dtype='int32')
+    group('multispectral.ndvi', {}, data)
+    group('multispectral.evi', {}, data + [('c1', {'c1': 5.0}), ('gain', {'gain': 2.0}), ('soil_factor', {'soil_factor': 0.5})])
+    group('multispectral.savi', {}, data + [('soil_factor', {'soil_factor': 0.5})])
+    group('multispectral.true_color', {}, data + [('nodata', {'nodata': 2}), ('c', {'c': 5.0}), ('th', {'th': 0.3})])
+    group('zonal.stats', {'stats_funcs': ['mean', 'sum']}, [('the data (same shape and chunks)', {'@seed': 13}),
+                                                            ('nodata_values', {'nodata_values': 2}), ('zone_ids', {'zone_ids': [1, 2]})])
+    group('zonal.crosstab', {}, [('the data (same shape and chunks)', {'@seed': 13}), ('nodata_values', {'nodata_values': 2}),
+                                 ('cat_ids', {'cat_ids': [1, 2]})], dtype='int32')
+    return G
+
+
+def joint_main():
+    """stdin: {"groups": [group...], "threads": n}; for every group: each member computed ALONE (its own graph), then
+    all members built lazily again and evaluated in ONE graph by dask.compute(*members) and, for rasters, by
+    xr.Dataset({...}).compute(); prints the digests"""
+    req = json.load(sys.stdin)
+    n = int(req.get('threads', 1))
+    import dask
+    import xarray as xr
+    dask.config.set(scheduler='synchronous' if n == 1 else 'threads', num_workers=n)
+    out = []
+    for g in req['groups']:
+        row = dict(alone=[], compute=[], dataset=[], descr=[])
+        lazies = []
+        for d in g['members']:
+            try:
+                f, args, kw = prepare(d)
+                r = call_prepared(f, args, kw)
+                row['alone'].append(r[0])
+                row['descr'].append(r[1])
+            except Exception as e:
+                row['alone'].append('ERR:prepare:%s' % type(e).__name__)
+                row['descr'].append(str(e)[:60])
+        for d in g['members']:
+            try:
+                f, args, kw = prepare(d)
+                lazies.append(lazy_call(f, args, kw))
+            except Exception as e:
+                lazies.append(RuntimeError('ERR:prepare:%s' % type(e).__name__))
+        ok = [i for i, x in enumerate(lazies) if not isinstance(x, RuntimeError)]
+        row['compute'] = [str(x) if isinstance(x, RuntimeError) else None for x in lazies]
+        row['dataset'] = [None] * len(lazies)
+        try:
+            joint = dask.compute(*[lazies[i] for i in ok])
+            for i, r in zip(ok, joint):
+                row['compute'][i] = digest(r, mark_dask=isinstance(lazies[i], xr.DataArray))[0]
+        except Exception as e:
+            for i in ok:
+                row['compute'][i] = 'ERR:%s' % type(e).__name__
+        das = [i for i in ok if isinstance(lazies[i], xr.DataArray)]
+        if len(das) == len(ok) and len(das) > 1:
+            try:
+                # rebuild: the same lazy objects were just computed, take new ones for the merged Dataset graph
+                fresh_l = []
+                for i in das:
+                    f, args, kw = prepare(g['members'][i])
+                    fresh_l.append(lazy_call(f, args, kw))
+                ds = xr.Dataset({'m%d' % k: x.reset_coords(drop=True).rename(None).drop_vars(list(x.coords), errors='ignore')
+                                 for k, x in enumerate(fresh_l)}).compute()
+                for k, i in enumerate(das):
+                    row['dataset'][i] = digest(np_of(ds['m%d' % k]))[0]
+                    row.setdefault('alone_values', {})[i] = digest(np_of(dask.compute(lazies[i])[0]))[0]
+            except Exception as e:
+                row['dataset_error'] = '%s: %s' % (type(e).__name__, str(e)[:80])
+        out.append(row)
+    sys.stdout.write('\n@@RESULT@@' + json.dumps(out) + '\n')
+
+
+def np_of(x):
+    import numpy as np
+    return np.asarray(x.data)
+
+
+def run_joint(groups, threads, timeout=2400):
+    env = dict(os.environ)
+    env['NUMBA_NUM_THREADS'] = str(threads)
+    env['NUMBA_DISABLE_PERFORMANCE_WARNINGS'] = '1'
+    p = subprocess.run([sys.executable, '-c', 'from harness.props import c11; c11.joint_main()'],
+                       input=json.dumps(dict(groups=groups, threads=threads)).encode(),
+                       stdout=subprocess.PIPE, stderr=subprocess.PIPE, env=env, timeout=timeout)
+    txt = p.stdout.decode('utf-8', 'replace')
+    i = txt.rfind('@@RESULT@@')
+    if i < 0:
+        raise RuntimeError('joint worker failed rc=%s: %s' % (p.returncode, p.stderr.decode('utf-8', 'replace')[-500:]))
+    return json.loads(txt[i + len('@@RESULT@@'):])
+
+
+def joint_stream(ctx, groups, threads_list, futs=None):
+    """several lazy Dask results that differ in ONE parameter evaluated in one graph: each must be what it is alone"""
+    import concurrent.futures as cf
+    with cf.ThreadPoolExecutor(max_workers=3) as ex:
+        futs = futs or {t: ex.submit(run_joint, groups, t) for t in threads_list}
+        for t, fu in futs.items():
+            try:
+                res = fu.result()
+            except Exception as e:
+                ctx.violation('correspondence', 'harness: joint-graph subprocess failed: %s' % str(e)[:300], dict(threads=t))
+                continue
+            for g, row in zip(groups, res):
+                base = g['members'][0]
+                for i, d in enumerate(g['members']):
+                    ctx.case(dict(joint=g['fn'], member=g['labels'][i], threads=t))
+                    ctx.count('one-graph evaluation/%s' % g['fn'].split('.')[-1])
+                    ctx.traces += 1
+                    alone = row['alone'][i]
+                    for how, got in (('dask.compute(a, b, ...)', row['compute'][i]),
+                                     ('xr.Dataset({...}).compute()', row['dataset'][i])):
+                        if got is None:
+                            continue
+                        ref = alone if how.startswith('dask.compute') else (row.get('alone_values') or {}).get(str(i),
+                                                                            (row.get('alone_values') or {}).get(i))
+                        if ref is None or got == ref:
+                            continue
+                        others = [j for j in range(len(g['members'])) if j != i and
+                                  (row['compute'][j] if how.startswith('dask.compute') else row['dataset'][j]) == got]
+                        ctx.violation('oracle', '%s: %d lazy Dask results that differ from the first only in ONE parameter each (%s) were '
+                                                'evaluated in one graph by %s: member `%s` %s comes out as %s, computed alone it is %s [%s]%s '
+                                                '(%d threads)' % (
+                                                    g['fn'], len(g['members']), ', '.join(g['labels'][1:]), how, g['labels'][i],
+                                                    json.dumps(d['kw'], sort_keys=True), got, ref, row['descr'][i],
+                                                    ('; it is identical to member `%s`' % g['labels'][others[0]]) if others else '', t),
+                                      dict(kind='joint-graph', group=g, member=i, threads=t))
+                        break
+
+
 def run_sequences(ctx, seqs, threads_list, baseline_ids=None):
     """seqs: list of lists of catalogue ids.  Runs every sequence under every thread count (each call twice) and one
     fresh process per distinct call; compares."""
@@ -1357,7 +1531,7 @@ def run(ctx):
     cat = catalogue()
     rng = ctx.rng
     if ctx.quick():
-        seqs = [gen_sequence(rng, cat, 22), gen_sequence(rng, cat, 14)]
+        seqs = [gen_sequence(rng, cat, 22), gen_sequence(rng, cat, 10)]
         # thread counts {1, 2, 4, 16}; Dask schedulers: synchronous (also with 4 Numba threads) and threaded
         threads = {0: [1, 4, 16], 1: [2, (4, 'synchronous')]}
     else:
@@ -1423,7 +1597,27 @@ def run(ctx):
         pick(lambda d: d['shape'] in ([1, 1], [1, 5], [5, 1], [2, 2]) or ro(d, 'fill'), 1) + \
         pick(lambda d: d['kw'].get('as_array') or d['kw'].get('scale') or ro(d, 'coords'), 1)
     seqs[0] = seqs[0] + themeblock
+    # key-collision stream (appended): groups of lazy Dask results differing in one parameter, evaluated in one graph.
+    # Quick: the seeded generators (terrain tiles by x_range / y_range / seed, perlin) always and a seeded sample of the
+    # other functions, in ONE subprocess running alongside the sequences; thorough: every group under 1 / 4 / 16 threads.
+    import concurrent.futures as cf
+    G = joint_groups()
+    jrng = random.Random(ctx.seed * 7919 + 11)          # own generator: earlier draws do not shift
+    if ctx.quick():
+        sel = []
+        for g in G:
+            if g['always']:
+                keep = [0, 1, 2, 5] if g['fn'].startswith('terrain') else list(range(len(g['members'])))
+                sel.append(dict(g, members=[g['members'][i] for i in keep], labels=[g['labels'][i] for i in keep]))
+        sel += jrng.sample([g for g in G if not g['always'] and not g['fn'].startswith('proximity.')], 3)
+        jset = [4]
+    else:
+        sel, jset = G, [1, 4, 16]
+    jex = cf.ThreadPoolExecutor(max_workers=3)
+    jfuts = {t: jex.submit(run_joint, sel, t) for t in jset}
     run_sequences(ctx, seqs, threads)
+    joint_stream(ctx, sel, jset, futs=jfuts)
+    jex.shutdown()
     ctx.exhaustive = False
     # ./check only widens the search when NO oracle violation was seen; the known bump finding is always seen, so
     # do it here when an obligation/correspondence broke and no failing input other than the known one was found
@@ -1460,9 +1654,13 @@ def search(ctx):
         big = [d['id'] for d in cat if d['kw'].get('big')]
         seqs.append(big + big)
     run_sequences(ctx, seqs, [1, 4, 16])
+    joint_stream(ctx, joint_groups(), [4])
 
 
 def replay_case(ctx, case):
+    if case.get('kind') == 'joint-graph':
+        joint_stream(ctx, [case['group']], [int(case.get('threads', 4))])
+        return
     cat = catalogue()
     seq = case.get('sequence') or [case.get('call')]
     t = int(case.get('threads', 4))
